@@ -505,9 +505,6 @@ func d18Classes(info *d18Info) []string {
 	if info.NontrivCloses > 0 {
 		out = append(out, "nontrivial:close-with-will-and-queued-request")
 	}
-	if info.LateToSucc > 0 {
-		out = append(out, "late-reply-delivered-to-successor")
-	}
 	if info.Expired > 0 {
 		out = append(out, "EXPRIED-notice-seen")
 	}
